@@ -219,6 +219,9 @@ def own_set(prog, rep, rule_path):
         # the first read is the character at the rule's own position; whatever is inspected next is context
         def read_at(self, m, st, cur, pos):
             k = st.ext.get("reads", 0)
+            if k > 0 and pos == ("rel", 0):
+                # the rule's own character read once more (e.g. strip_prefix after char_indices().nth): still the own test
+                return LabelWorld.read_at(self, m, st, cur, pos)
             st.ext["reads"] = k + 1
             if k > 0:
                 raise StopOwn()
@@ -276,6 +279,24 @@ def own_set(prog, rep, rule_path):
     return own
 
 
+def own_set_general(prog, rep, rule_path):
+    """Own set from the paths of the whole rule: the code points the character at `offset` may have on any path
+    that does not end with NotApplicable (paths on which that character does not exist say nothing)."""
+    w = LabelWorld(prog)
+    m = ip.Machine(prog, w)
+    outs = m.run(m.start(rule_path, [Str(("label",)), Sym("offset", "usize")]))
+    other = []
+    for o in outs:
+        if o.state.facts.get(("at", 0)) != "present":
+            continue
+        r = o.state.facts.get(("rng", ("at", 0)), ((0, 0x10FFFF),))
+        v = o.value
+        is_na = o.kind == "return" and isinstance(v, Adt) and v.ty == ip.RESULT and v.variant == 1 and isinstance(v.fields[0], Adt) and v.fields[0].variant == 0
+        if not is_na:
+            other.extend(r)
+    return sorted(set(other))
+
+
 def registry_vs_ctx(prog, rep):
     tabs, errs = tables.all_tables(prog)
     exc = {}
@@ -312,7 +333,12 @@ def registry_vs_ctx(prog, rep):
     owns = {}
     for r in sorted({r for _, _, r in parts if r}):
         try:
-            owns[r] = own_set(prog, rep, r)
+            try:
+                owns[r] = own_set(prog, rep, r)
+            except ip.AnalysisError:
+                # the rule does not begin by reading its own character (it reads a neighbour first, or through a
+                # helper): classify the paths of the whole rule instead
+                owns[r] = own_set_general(prog, rep, r)
         except ip.AnalysisError as e:
             b_ = prog.body(r)
             rep.analysis_error("own-set", r.rsplit("::", 1)[1], e, b_.where() if b_ is not None else "")
